@@ -27,6 +27,8 @@ pub struct Case {
     pub wrap_override: Option<usize>,
     /// spare sequence rows of a hand-built striped sequence (0: as striped by the library)
     pub spare_rows: usize,
+    /// rows the weight matrix had in excess before being `resize`d down to its width (0: built at its width)
+    pub trimmed_rows: usize,
 }
 
 impl Case {
@@ -43,6 +45,7 @@ impl Case {
             "matrix": model::matrix_to_json(&self.matrix),
             "wrap_override": self.wrap_override,
             "spare_rows": self.spare_rows,
+            "trimmed_rows": self.trimmed_rows,
             "cfg": cfg.map(|c| c.name()),
         })
     }
@@ -55,6 +58,7 @@ impl Case {
             origin: v["origin"].as_str().unwrap_or("").to_string(),
             wrap_override: v["wrap_override"].as_u64().map(|x| x as usize),
             spare_rows: v["spare_rows"].as_u64().unwrap_or(0) as usize,
+            trimmed_rows: v["trimmed_rows"].as_u64().unwrap_or(0) as usize,
         }
     }
 }
@@ -114,7 +118,7 @@ pub fn check_case<A: Alphabet>(case: &Case, cfgs_: &[Cfg], light: bool) -> Outco
         tail_failures: Vec::new(),
     };
     let syms = model::to_symbols::<A>(&case.seq);
-    let pssm = model::scoring::<A>(&case.matrix);
+    let pssm = if case.trimmed_rows > 0 { model::scoring_trimmed::<A>(&case.matrix, case.trimmed_rows) } else { model::scoring::<A>(&case.matrix) };
     // reference
     let refs: Vec<(f64, f64)> = (0..valid).map(|i| model::ref_score(&case.matrix, &case.seq, i)).collect();
     let tail_applies = wildcard_is_neg_inf(&case.matrix);
@@ -147,6 +151,26 @@ pub fn check_case<A: Alphabet>(case: &Case, cfgs_: &[Cfg], light: bool) -> Outco
             let full = ro.unstriped.len() > 0 || ro.iter_len > 0 || (ro.a == 0 && ro.b == r && ro.api_max.is_some());
             let is_full_entry = std::ptr::eq(ro, &so.ranges[0]);
             let want_rows = if valid == 0 || ro.b <= ro.a { 0 } else { ro.b - ro.a };
+            if is_full_entry && tail_applies && valid > 0 {
+                // C07 clause 2: the largest cell of the float score matrix is the best valid position's score whenever one is finite
+                let (best, ab) = refs.iter().filter(|r| r.0.is_finite() && r.1.is_finite()).fold((f64::NEG_INFINITY, 0f64), |(b, a), &(ex, ab)| (b.max(ex), a.max(ab)));
+                if best.is_finite() {
+                    let top = ro.cells.iter().cloned().fold(None, |acc: Option<f32>, x| Some(acc.map_or(x, |a| a.max(x))));
+                    match top {
+                        None => out.tail_failures.push((
+                            "max of empty score matrix".into(),
+                            format!("the score matrix has no cell although position(s) 0..{} are valid and the best one scores {} (L={}, M={})", valid, best, l, m),
+                            Some(cfg),
+                        )),
+                        Some(v) if !model::score_ok(v, best, ab, m) => out.tail_failures.push((
+                            "matrix maximum".into(),
+                            format!("the largest cell of the score matrix is {} but the best valid position scores {} (L={}, M={})", v, best, l, m),
+                            Some(cfg),
+                        )),
+                        _ => {}
+                    }
+                }
+            }
             if ro.rows != want_rows {
                 out.failures.push((
                     "row count".into(),
@@ -423,6 +447,7 @@ fn run_shapes<A: Alphabet>(alpha: &'static str, ctx: &mut Ctx, rep: &mut Report,
                             origin: format!("shapes L={} M={} matrix={}#{} pattern={} wildcard_at={:?}", l, m, kind, win, p, wild),
                             wrap_override: None,
                             spare_rows: 0,
+                            trimmed_rows: 0,
                         };
                         ctx.crumb(|| case.origin.clone());
                         let o = check_case::<A>(&case, &cfgs::ALL_CFGS, big);
@@ -460,6 +485,7 @@ fn run_shapes<A: Alphabet>(alpha: &'static str, ctx: &mut Ctx, rep: &mut Report,
                     origin: format!("shapes/extra-wrap L={} M={} wrap={}", l, m, w),
                     wrap_override: Some(w),
                     spare_rows: 0,
+                    trimmed_rows: 0,
                 };
                 let o = check_case::<A>(&case, &cfgs::ALL_CFGS, false);
                 for _ in 0..o.invocations {
@@ -467,6 +493,35 @@ fn run_shapes<A: Alphabet>(alpha: &'static str, ctx: &mut Ctx, rep: &mut Report,
                 }
                 for (sig, msg, cfg) in o.failures {
                     rep.violation(format!("C01 {} {} extra-wrap {}", alpha, cfg.map(|c| c.name()).unwrap_or("-"), sig), msg, || case.json(cfg));
+                }
+            }
+        }
+    }
+    // weight matrices that were LONGER and have been trimmed with DenseMatrix::resize before ScoringMatrix::new
+    // (a motif cut down to its informative core): the dropped rows hold large finite weights
+    for &l in &[0usize, 1, 5, 31, 32, 33, 64, 100, 1025] {
+        for &m in &[1usize, 3, 8, 17] {
+            for &trim in &[1usize, 2, 6] {
+                let idx = *base;
+                *base += 1;
+                if !ctx.mine(idx) {
+                    continue;
+                }
+                let case = Case {
+                    alpha,
+                    seq: model::digit_pattern_wild(l, k, 0, 5),
+                    matrix: make_matrix("enc", m, k, 0),
+                    origin: format!("shapes/trimmed-matrix L={} M={} trimmed={}", l, m, trim),
+                    wrap_override: None,
+                    spare_rows: 0,
+                    trimmed_rows: trim,
+                };
+                let o = check_case::<A>(&case, &cfgs::ALL_CFGS, false);
+                for _ in 0..o.invocations {
+                    rep.eval_distinct(o.nontrivial);
+                }
+                for (sig, msg, cfg) in o.failures {
+                    rep.violation(format!("C01 {} {} trimmed-matrix {}", alpha, cfg.map(|c| c.name()).unwrap_or("-"), sig), msg, || case.json(cfg));
                 }
             }
         }
@@ -488,6 +543,7 @@ fn run_shapes<A: Alphabet>(alpha: &'static str, ctx: &mut Ctx, rep: &mut Report,
                     origin: format!("shapes/spare-rows L={} M={} spare={}", l, m, spare),
                     wrap_override: None,
                     spare_rows: spare,
+                    trimmed_rows: 0,
                 };
                 let o = check_case::<A>(&case, &cfgs::ALL_CFGS, false);
                 for _ in 0..o.invocations {
@@ -552,6 +608,7 @@ fn run_small<A: Alphabet>(alpha: &'static str, ctx: &mut Ctx, rep: &mut Report, 
                         origin: format!("small L={} seq#{} M={} matrix#{}", l, si, m, mi),
                         wrap_override: None,
                         spare_rows: 0,
+                        trimmed_rows: 0,
                     };
                     // lane-count variety matters little for <= 6 symbols: one of each family
                     let set = [Cfg::GenU32, Cfg::GenU2, Cfg::SseU16, Cfg::AvxU32, Cfg::DispGen, Cfg::DispSse, Cfg::DispAvx];
